@@ -87,6 +87,17 @@ class DensityInterp(TermInterp):
             super().stmt(st)
             self.write_through(st.target.id, self.env[st.target.id])
             return
+        if isinstance(st, ast.Assign) and len(st.targets) == 1 and isinstance(st.targets[0], ast.Subscript) and isinstance(st.targets[0].value, ast.Name) \
+                and isinstance(self.env.get(st.targets[0].value.id), OV):
+            sl = st.targets[0].slice
+            whole = (isinstance(sl, ast.Slice) and sl.lower is None and sl.upper is None and sl.step is None) or \
+                    (isinstance(sl, ast.Constant) and sl.value is Ellipsis) or \
+                    (isinstance(sl, ast.Tuple) and all(isinstance(z, ast.Slice) and z.lower is None and z.upper is None and z.step is None for z in sl.elts))
+            if whole:
+                # `x[:] = value` overwrites the array in place: every name of the same array now holds the value
+                v = self.expr(st.value)
+                self.write_through(st.targets[0].value.id, v)
+                return
         super().stmt(st)
 
     def expr(self, e):
